@@ -211,6 +211,9 @@ func (m *Metrics) printMetrics() {
 
 // Restores all metrics to original values
 func (m *Metrics) zeroMetrics() {
+	// The counters and sets are updated by request handlers under m.lock.
+	m.lock.Lock()
+	defer m.lock.Unlock()
 	m.proxyIdleCount = 0
 	m.clientDeniedCount = 0
 	m.clientRestrictedDeniedCount = 0
